@@ -222,7 +222,7 @@ struct JSON {
 
                     ++offset;
 
-                    while ((offset < length) && (content[offset] == *true_string)) {
+                    while ((offset < length) && (*true_string != Char_T{0}) && (content[offset] == *true_string)) {
                         ++true_string;
                         ++offset;
                     }
@@ -239,7 +239,7 @@ struct JSON {
 
                     ++offset;
 
-                    while ((offset < length) && (content[offset] == *false_string)) {
+                    while ((offset < length) && (*false_string != Char_T{0}) && (content[offset] == *false_string)) {
                         ++false_string;
                         ++offset;
                     }
@@ -256,7 +256,7 @@ struct JSON {
 
                     ++offset;
 
-                    while ((offset < length) && (content[offset] == *null_string)) {
+                    while ((offset < length) && (*null_string != Char_T{0}) && (content[offset] == *null_string)) {
                         ++null_string;
                         ++offset;
                     }
